@@ -677,3 +677,79 @@ func RuleSO1(c *Ctx) {
 		}
 	}
 }
+
+// ---------------------------------------------------------------- BR1
+
+// RuleBR1: the build walk does not consult the declarations it is still collecting. The
+// handlers of the directive table run once per directive in document order and fill the
+// catalog; user types and enums may be declared after their first use, so at that moment
+// the collection holds only what happened to be written earlier. A handler (or anything it
+// calls in package core) that looks a name up in catalog.UserTypes / catalog.UserEnums
+// decides by position in the document; every such lookup belongs to the stages after the
+// walk (compile, validate).
+func RuleBR1(c *Ctx) {
+	sc := c.Run.Begin("BR1", "no function reachable from the build-stage handler table reads catalog.UserTypes or catalog.UserEnums (the collections of declarations that may follow their use)", 1)
+	defer sc.End()
+	pk := c.P.Pkg("core")
+	table := c.handlerTable()
+	if pk == nil || len(table) == 0 {
+		sc.Undecided("anchors", "-", "unresolved anchor: the handler table JApiCore.directiveFunctions")
+		return
+	}
+	var roots []*types.Func
+	var names []string
+	for k := range table {
+		names = append(names, k)
+	}
+	sort.Strings(names)
+	for _, k := range names {
+		roots = append(roots, table[k])
+	}
+	// frozen: the by-name collections whose members may be declared after they are used
+	late := map[*types.Var]bool{}
+	for _, n := range []string{"UserTypes", "UserEnums"} {
+		if f := c.Field("catalog", "Catalog", n); f != nil {
+			late[f] = true
+		}
+	}
+	if len(late) != 2 {
+		sc.Undecided("anchors", "-", "unresolved anchor: catalog.Catalog.UserTypes / UserEnums")
+		return
+	}
+	info := pk.TypesInfo
+	reach := reachStatic(c.P, pk, roots)
+	bad := 0
+	for _, f := range reach {
+		fd := c.P.Decl(f)
+		k := 0
+		ast.Inspect(fd.Body, func(n ast.Node) bool {
+			call, ok := n.(*ast.CallExpr)
+			if !ok {
+				return true
+			}
+			sel, ok := ast.Unparen(call.Fun).(*ast.SelectorExpr)
+			if !ok {
+				return true
+			}
+			rsel, ok := ast.Unparen(sel.X).(*ast.SelectorExpr)
+			if !ok {
+				return true
+			}
+			fld, ok := info.ObjectOf(rsel.Sel).(*types.Var)
+			if !ok || !late[fld] {
+				return true
+			}
+			switch sel.Sel.Name {
+			case "Set", "SetToTop", "Update", "Delete":
+				return true
+			}
+			k++
+			bad++
+			sc.Violation(fmt.Sprintf("%s:%s.%s#%d", c.P.DeclName(fd), fld.Name(), sel.Sel.Name, k), c.P.Pos(call.Pos()), fmt.Sprintf("%s is consulted while the directive handlers are still filling it: a declaration written further down in the document is not there yet, so the outcome depends on where the declaration stands (an alias declared before the block and its target after it)", fld.Name()))
+			return true
+		})
+	}
+	if bad == 0 {
+		sc.Holds("handlers", "-", fmt.Sprintf("%d functions reachable from the %d handlers of the build stage, none reads UserTypes/UserEnums", len(reach), len(roots)))
+	}
+}
